@@ -8,6 +8,7 @@ macro_rules! harnesses {
             #[cfg_attr(kani, kani::unwind($u))]
             #[cfg_attr(kani, kani::stub(zeroize::optimization_barrier, crate::verif_kani::vk::noop_barrier))]
             #[cfg_attr(kani, kani::stub(<[u8]>::copy_from_slice, crate::verif_kani::vk::elementwise_copy))]
+            #[cfg_attr(all(kani, not(verif_no_ga_stub)), kani::stub(generic_array::GenericArray::clone_from_slice, crate::verif_kani::vk::ga_clone_from_slice))]
             pub fn $name() $body
         )*
         pub const TABLE: &[(&str, fn())] = &[ $( (stringify!($name), $name as fn()) ),* ];
